@@ -314,7 +314,85 @@ def worker(col, item, tier, seed):
         drop_envs()
 
 
+# ------------------------------------------------------------------ part B: repeating components (RepeatingEngine.restart)
+def rep_cases(thorough):
+    lasts = ['ResourceExhausted', 'KnownIssue', 'Success', 'SystemIssue']
+    seconds = ['ResourceExhausted', 'Success', 'KnownIssue']
+    for x in lasts:
+        for y in seconds:
+            for retries in ((0, 1) if not thorough else (0, 1, 2)):
+                for on in (None, ['KnownIssue', 'ResourceExhausted']):
+                    for m in ((None, 0, 1) if not thorough else (None, -1, 0, 1, 3)):
+                        yield {'last': x, 'second': y, 'retries': retries, 'restartHookOn': on, 'maxRestarts': m}
+
+
+def run_rep_case(col, c):
+    """A same-stage observer whose executions after its producer finished exit with `last`; if it is restarted the
+    restarted task exits with `second`. Driven through the real Controller stage loop."""
+    from verif.vsched import harness as h
+    wa = {'repeatInterval': 7.0, 'repeatRetries': c['retries'], 'shutdownOn': list(NONSUCCESS)}
+    if c['restartHookOn'] is not None:
+        wa['restartHookOn'] = list(c['restartHookOn'])
+    if c['maxRestarts'] is not None:
+        wa['maxRestarts'] = c['maxRestarts']
+    doc = {'components': [
+        {'name': 'P', 'stage': 0, 'command': {'executable': 'ls', 'arguments': '/tmp'},
+         'resourceManager': {'config': {'backend': 'local'}}},
+        {'name': 'Obs', 'stage': 0, 'command': {'executable': 'ls', 'arguments': 'P:ref'}, 'references': ['P:ref'],
+         'resourceManager': {'config': {'backend': 'local'}}, 'workflowAttributes': wa,
+         'variables': {'check-producer-output': 'false'}}]}
+    # the observer runs once while P lives (Success), then P finishes; afterwards every repeat exits with `last`;
+    # restart launches are recognised by the way the task is created (no outputFile argument)
+    script = {'stage0.P': [['Success', 12.0]], 'stage0.Obs': [['Success', 0.0], [c['last'], 0.0]]}
+    scn = h.Scenario(doc, script=script, extra_files={'hooks/__init__.py': '', 'hooks/restart.py': HOOK_SRC})
+    h.install()
+    h.H.on_launch = None
+    orig = h.M.FakeTask.__init__
+
+    def patched(self, job, **kw):
+        orig(self, job, **kw)
+        if job.reference == 'stage0.Obs' and 'outputFile' not in kw:
+            self._planned = c['second']
+
+    h.M.FakeTask.__init__ = patched
+    try:
+        x = h.execute(scn, [], horizon=2000.0, want_fps=False)
+    finally:
+        h.M.FakeTask.__init__ = orig
+    col.evaluated()
+    col.traces += 1
+    launches = [e for e in x.events if e['kind'] == 'launch' and e['ref'] == 'stage0.Obs']
+    exits = {e['n']: e['reason'] for e in x.events if e['kind'] == 'exit' and e['ref'] == 'stage0.Obs'}
+    col.transitions += len(launches)
+    restarts = [e for e in launches if e['via'] == 'restart']
+    on = c['restartHookOn'] if c['restartHookOn'] is not None else ['ResourceExhausted']
+    m = c['maxRestarts'] if c['maxRestarts'] is not None else 3
+    case = {'part': 'repeating', 'case': c}
+    col.nontriv(case)
+    col.state(('rep', c['last'], c['second'], len(restarts)))
+    col.outcome('rep: restarts=%d final=%s ret=%s' % (len(restarts), x.final.get('stage0.Obs', {}).get('state'), x.result.get('ret')))
+    bad = []
+    for e in restarts:
+        prev = exits.get(e['n'] - 1)
+        if prev in ('Killed', 'Cancelled') or prev not in on:
+            bad.append(('repeating component restarted after its last task exited with %s (restartable: %r)' % (prev, on), 'C12:rep-restart-after-nonrestartable'))
+    if m != -1 and len(restarts) > m:
+        bad.append(('repeating component restarted %d times, maximum %d' % (len(restarts), m), 'C12:rep-max-restarts'))
+    if x.result.get('ret') != 'done' or x.final.get('stage0.Obs', {}).get('state') not in ('finished', 'failed', 'component_shutdown'):
+        bad.append(('repeating component did not receive a final state: %r %r' % (x.result, x.final.get('stage0.Obs')), 'C12:rep-no-final-state'))
+    for why, sig in bad:
+        col.fail(case, why, {'launches': [[e['n'], e['via']] for e in launches], 'exits': exits, 'final': x.final, 'result': x.result}, sig=sig)
+
+
+def worker_rep(col, item, tier, seed):
+    for c in item:
+        run_rep_case(col, c)
+
+
 def run(ctx):
+    rc = list(rep_cases(ctx.thorough))
+    ctx.count('repeating_cases', len(rc))
+    ctx.pmap('verif.props.c12', 'worker_rep', [rc[i:i + 6] for i in range(0, len(rc), 6)], maxtasksperchild=4)
     scr = list(scripts(ctx.thorough))
     ctx.count('scripts', len(scr))
     items = []
@@ -332,6 +410,9 @@ def run(ctx):
 
 
 def replay(ctx, case):
+    if case.get('part') == 'repeating':
+        run_rep_case(ctx, case['case'])
+        return
     try:
         run_case(ctx, {'config': case['config'], 'reasons': case['reasons'], 'hooks': case['hooks'],
                        'shutdownOn': case.get('shutdownOn', [])}, case.get('stable', True))
